@@ -1846,6 +1846,74 @@ func (r *pegRun) match(n *pegNode, pos int) int {
 	panic("peg: kind " + n.kind)
 }
 
+// pegBoundaryChars: every character the grammar mentions - in a literal or as an end of a class range - together with its
+// two neighbours: the characters at which acceptance can change
+func pegBoundaryChars(g *pegGrammar) []rune {
+	seen := map[rune]bool{}
+	add := func(c rune) {
+		for _, d := range []rune{c - 1, c, c + 1} {
+			if d >= 0 && d <= 0x10FFFF && !(d >= 0xD800 && d <= 0xDFFF) {
+				seen[d] = true
+			}
+		}
+	}
+	var walk func(n *pegNode)
+	walk = func(n *pegNode) {
+		switch n.kind {
+		case "lit":
+			for _, c := range n.text {
+				add(c)
+			}
+		case "class":
+			for _, r := range n.set {
+				add(r[0])
+				add(r[1])
+			}
+		}
+		for _, k := range n.kids {
+			walk(k)
+		}
+	}
+	for _, r := range g.rules {
+		walk(r)
+	}
+	var out []rune
+	for c := range seen {
+		out = append(out, c)
+	}
+	sort.Slice(out, func(i, j int) bool { return out[i] < out[j] })
+	return out
+}
+
+// pegBoundaryCorpus: every boundary character substituted for, and inserted before, every character of seed paths that
+// between them use every rule of the grammar
+func pegBoundaryCorpus(g *pegGrammar) []string {
+	seeds := []string{
+		`$.ab.c`, `$..ab[0]`, `ab.cd`, `$['ab',"cd"].*`, `$[0:1:2,3,*]`, `$[?(@.ab==1.5e3&&$.c!='de')]`, `$[?(!@.a||(@.b<=2))]`,
+		`$[?(@.a=~/ab/)]`, `$.ab.fn()`, `$['\u00e9\n']`, `$[?(@.a>"d\"e")]`, `$[?(@.a==true||@.b==null)]`, `$[(ab)]`, `@.ab`, `$[*].ab[-1]`, `$.a\.b`,
+	}
+	if !apiThorough {
+		seeds = seeds[:10]
+	}
+	chars := pegBoundaryChars(g)
+	var out []string
+	for _, sd := range seeds {
+		r := []rune(sd)
+		for pos := 0; pos <= len(r); pos++ {
+			for _, c := range chars {
+				ins := append(append(append([]rune{}, r[:pos]...), c), r[pos:]...)
+				out = append(out, string(ins))
+				if pos < len(r) && r[pos] != c {
+					sub := append([]rune{}, r...)
+					sub[pos] = c
+					out = append(out, string(sub))
+				}
+			}
+		}
+	}
+	return out
+}
+
 func apiCheckGrammar(t *testing.T) {
 	g, err := pegLoad()
 	if err != nil {
@@ -1853,6 +1921,24 @@ func apiCheckGrammar(t *testing.T) {
 		return
 	}
 	paths, cfg := apiParseCorpus()
+	paths = append(paths, pegBoundaryCorpus(g)...)
+	// documented semantic restriction: a comparison never has two current-node operands, whatever the operator and however
+	// the comparison is embedded
+	cur := []string{`@.a`, `@`, `@.a.f()`, `@.a[0]`, `@['a']`, `@.a.b`, `@..a`, `@.*`, `@.a.g()`}
+	for _, a := range cur {
+		for _, b := range cur {
+			for _, o := range []string{`==`, `!=`, `<`, `<=`, `>`, `>=`} {
+				for _, frame := range []string{`$[?(%s)]`, `$[?(@.x && %s)]`, `$[?(@.x || (%s))]`, `$.a[?(%s)].b`, `$[?($.y == 1 && %s || @.z)]`} {
+					p := fmt.Sprintf(frame, a+` `+o+` `+b)
+					apiCount()
+					if _, err := Parse(p, cfg); err == nil {
+						t.Errorf("REPRODUCED: %q compares two current-node operands and is accepted", p)
+						return
+					}
+				}
+			}
+		}
+	}
 	for _, p := range paths {
 		in := []rune(p)
 		run := &pegRun{g: g, in: in, memo: map[[2]interface{}]int{}}
@@ -1879,6 +1965,23 @@ func apiCheckGrammar(t *testing.T) {
 		// not derivable: the error names the end of the longest prefix `jsonpath?` accepts, and `near` is the rest
 		begin := run.match(&pegNode{kind: "opt", kids: []*pegNode{{kind: "ref", text: "jsonpath"}}}, 0)
 		want := fmt.Sprintf("invalid syntax (position=%d, reason=unrecognized input, near=%s)", begin, string(in[begin:]))
+		if perr != nil && perr.Error() != want && begin > 0 {
+			// the actions of the accepted prefix run before the action that reports the syntax error: a semantic
+			// restriction the prefix violates on its own (unknown function, bad number, ...) is reported instead
+			var prefErr error
+			func() {
+				defer func() {
+					if r := recover(); r != nil {
+						prefErr = fmt.Errorf("panic: %v", r)
+					}
+				}()
+				apiCount()
+				_, prefErr = Parse(string(in[:begin]), cfg)
+			}()
+			if prefErr != nil && prefErr.Error() == perr.Error() {
+				continue
+			}
+		}
 		if !isSyntax || perr.Error() != want {
 			t.Errorf("REPRODUCED: %q is not derivable from jsonpath.peg: Parse gives %v, expected %s", p, perr, want)
 			return
@@ -2050,6 +2153,8 @@ func (s *sp) step(n *spNode) (text string, bracket bool) {
 		return s.bracket(s.join(items, ",")), true
 	case "filter":
 		return s.bracket("?(" + s.space() + s.query(n.kids[0]) + s.space() + ")"), true
+	case "func":
+		return "." + n.key + "()", false
 	}
 	panic("sp: step kind " + n.kind)
 }
@@ -2167,6 +2272,9 @@ func (g *spGen) stepNode(depth int) *spNode {
 		}
 		return n
 	case k == 6 || k == 7:
+		if g.r.Intn(4) == 0 {
+			return &spNode{kind: "index", num: 7 + g.r.Intn(6)} // two digits, 8 and 9 (no octal reading of a leading zero)
+		}
 		return &spNode{kind: "index", num: g.r.Intn(6) - 2}
 	case k == 8:
 		return &spNode{kind: "slice", parts: g.sliceParts()}
@@ -2254,7 +2362,7 @@ func (g *spGen) numberNode() *spNode {
 	if g.r.Intn(4) == 0 {
 		return &spNode{kind: "number", key: []string{"1.5", "2.0", "0.5", "3e0"}[g.r.Intn(4)]}
 	}
-	return &spNode{kind: "number", num: g.r.Intn(8) - 1}
+	return &spNode{kind: "number", num: g.r.Intn(13) - 1}
 }
 
 func (g *spGen) pathSteps() []*spNode {
@@ -2265,6 +2373,10 @@ func (g *spGen) pathSteps() []*spNode {
 			n.rec = true
 		}
 		steps = append(steps, n)
+	}
+	// functions come last: an aggregate (sees all matches) and / or a filter function (sees each)
+	for k := g.r.Intn(6); k < 2; k++ {
+		steps = append(steps, &spNode{kind: "func", key: []string{"count", "twice", "count"}[g.r.Intn(3)]})
 	}
 	return steps
 }
@@ -2277,9 +2389,9 @@ func spErrType(o apiOutcome) string {
 }
 
 func apiCheckSpellings(t *testing.T) {
-	asts, variants := 400, 5
+	asts, variants := 3000, 5
 	if apiThorough {
-		asts, variants = 6000, 12
+		asts, variants = 40000, 12
 	}
 	g := &spGen{r: rand.New(rand.NewSource(18))}
 	var docs []interface{}
@@ -2287,10 +2399,36 @@ func apiCheckSpellings(t *testing.T) {
 		docs = append(docs, refDecode(ds, false))
 	}
 	docs = append(docs, refDecode(`[{"a":1.5,"b":"s","c":true,"p":[0,1,2,3,4,5],"y":null},{"a":"x y","b":2,"c":[{"a":2.0},{"a":0.5}],"p":{"a":{"b":3}}},{"a":{"b":1},"b":[3,{"a":1}],"y":""}]`, false))
+	docs = append(docs, refDecode(`{"a":[0,1,2,3,4,5,6,7,8,9,10,11,12],"b":[{"a":8},{"a":9},{"a":10},{"a":12}],"p":[[0,1,2,3,4,5,6,7,8,9,10],{"y":[0,1,2,3,4,5,6,7,8,9]}]}`, false))
+	cfg := Config{}
+	cfg.SetAggregateFunction("count", func(vs []interface{}) (interface{}, error) { return float64(len(vs)), nil })
+	cfg.SetFilterFunction("twice", func(v interface{}) (interface{}, error) { return []interface{}{v, v}, nil })
+	// quote style on names the JSON decoder treats specially (raw control characters, invalid UTF-8, non-ASCII): the two
+	// quote styles give the same outcome - values or the type of the syntax-check error
+	for _, k := range []string{"a\tb", "a\nb", "\x01", "a\xffb", "\xc3", "é", "a b", " ", "a\x7fb", "\u2028", "a\x00b", "a/b", "$", "@", "*"} {
+		doc := map[string]interface{}{k: 1.0, strings.ToValidUTF8(k, "\ufffd"): 2.0}
+		var outs [2]string
+		for q, quote := range []string{"'", `"`} {
+			for _, path := range []string{"$[" + quote + k + quote + "]", "$..[" + quote + k + quote + "]", "$[" + quote + k + quote + ",'zz']"} {
+				apiCount()
+				f, err := Parse(path, cfg)
+				if err != nil {
+					outs[q] += fmt.Sprintf("%T;", err)
+					continue
+				}
+				o, _ := apiEval(f, doc)
+				outs[q] += o.res + spErrType(o) + ";"
+			}
+		}
+		if outs[0] != outs[1] {
+			t.Errorf("REPRODUCED: C18: the quote styles differ on the name %q: single %s double %s", k, outs[0], outs[1])
+			return
+		}
+	}
 	for i := 0; i < asts && !t.Failed(); i++ {
 		steps := g.pathSteps()
 		canon := (&sp{canon: true}).steps(steps, "$", true)
-		cf := apiParse(t, canon, Config{})
+		cf := apiParse(t, canon, cfg)
 		seen := map[string]bool{canon: true}
 		for v := 0; v < variants; v++ {
 			text := (&sp{r: rand.New(rand.NewSource(int64(1000*i + v)))}).steps(steps, "$", true)
@@ -2301,7 +2439,7 @@ func apiCheckSpellings(t *testing.T) {
 				continue
 			}
 			seen[text] = true
-			vf := apiParse(t, text, Config{})
+			vf := apiParse(t, text, cfg)
 			if (cf == nil) != (vf == nil) {
 				t.Errorf("REPRODUCED: C18: %q parses: %v but its spelling %q parses: %v", canon, cf != nil, text, vf != nil)
 				return
